@@ -273,7 +273,7 @@ def validate_traces(module, traces, constants=None, timeout=900, extra_constrain
 
     `traces` is a list of traces; each trace is a list of JSON-able event records. The trace module reads the file
     named by env TRACE_FILE with JsonDeserialize as a sequence of sequences, carries `tid` and `l`, and its
-    constraint prints <<"ACCEPT", tid>> when a trace is consumed completely and <<"AT", tid, l>> progress marks.
+    constraint keeps the furthest position per trace in a TLC register; the postcondition prints <<"MAX", ...>>.
 
     Returns (accepted: set of 0-based indices, progress: dict idx -> furthest l reached, TlcResult).
     """
@@ -285,7 +285,7 @@ def validate_traces(module, traces, constants=None, timeout=900, extra_constrain
     cfgfile = os.path.join(wd, module + '_tr.cfg')
     write_cfg(cfgfile, spec=None, init='TraceInit', next_='TraceNext', constants=constants,
               constraints=['TraceConstraint'] + list(extra_constraints), deadlock=False, invariants=invariants,
-              properties=properties)
+              properties=properties, postcondition='TracePost')
     args = ['tlc2.TLC', '-workers', str(workers), '-metadir', os.path.join(wd, 'md'), '-noGenerateSpecTE',
             '-config', cfgfile, module]
     rc, out, wall = _java(args, wd, timeout, env={'TRACE_FILE': tf})
@@ -293,9 +293,12 @@ def validate_traces(module, traces, constants=None, timeout=900, extra_constrain
     accepted = set()
     progress = {}
     for v in parse_printed(out):
-        if len(v) >= 2 and v[0] == 'ACCEPT':
-            accepted.add(int(v[1]) - 1)
-        elif len(v) >= 3 and v[0] == 'AT':
+        if len(v) >= 4 and v[0] == 'MAX':
             i = int(v[1]) - 1
-            progress[i] = max(progress.get(i, 0), int(v[2]))
+            progress[i] = int(v[2])
+            if int(v[2]) == int(v[3]) + 1:
+                accepted.add(i)
+    if len(progress) != len(traces):
+        raise MachineryError("trace validation produced %d verdicts for %d traces:\n%s"
+                             % (len(progress), len(traces), out[-2000:]))
     return accepted, progress, r
